@@ -53,6 +53,8 @@ TRUSTED_EXTRA = ["the event log taken by wrapping test_new_minimum / test_new_ts
 def regenerate(ctx: Ctx) -> None:
     ctx.gen_status.update(ktn_cfg.regenerate())
     ctx.gen_status.update(hef_tr.regenerate())       # C01_record_from_search is about the current search kernel
+    from translate import transcripts as _tr
+    ctx.gen_status.update(_tr.constructor_wiring(['HybridEigenvectorFollowing', 'NudgedElasticBand', 'BasinHopping', 'NetworkSampling', 'StandardSimilarity', 'StandardPerturbation']))
 
 
 # ----------------------------------------------------------------------------- surfaces
